@@ -3,7 +3,7 @@ from common import *
 
 PID = "C03"
 TARGETS = ["Run.vo"]
-IMPORTS = "From VF Require Import Base Show Mnemonic Run."
+IMPORTS = "From VF Require Import Base Show Gen_Errors Lexer Response Conv Tree Scripted Numeric Enum Mnemonic Run."
 ALLOWED_AXIOMS = []
 PROFILES = ["debug"]
 RULE = ("definitions of SCPI shape (optional *, 1-5 upper, 0-5 lower, 0-3 digits) and arbitrary definitions; per "
@@ -11,7 +11,10 @@ RULE = ("definitions of SCPI shape (optional *, 1-5 upper, 0-5 lower, 0-3 digits
         "case flips, truncations, extensions, underscores, all-digit and empty candidates, random strings over "
         "{A,B,a,b,0,1,2,_,*} and over all bytes; through mnemonic_match, mnemonic_compare and "
         "Token::match_program_header (mnemonic, character data, other token); a case (definition) is non-trivial when "
-        "its candidates produce both outcomes; distinct = distinct (definition, candidates) lines")
+        "its candidates produce both outcomes; distinct = distinct (definition, candidates) lines.  The same rule is also "
+        "observed at every USE of the matcher: header mnemonics dispatched through a command tree (node names = definitions), "
+        "character data given to derived enums (the fixed enums of gen_enums.rs), float keywords and numeric_value keywords, "
+        "each compared with the model and with the short/long/default-1 rule recomputed in Python")
 ASSUMPTIONS = ["core::u8 ascii class helpers and eq_ignore_ascii_case as documented"]
 
 UP = b"ABCDEFGHIJKLMNOPQRSTUVWXYZ"
@@ -72,20 +75,79 @@ def gen_cands(rng, d, parts, n=40):
     return out[:n]
 
 
+def use_sites(rng, tier):
+    """the matcher as its callers use it"""
+    import treegen, C02, C20
+    out = []
+    words = [b"SYSTem", b"VERSion", b"ALL", b"STATe", b"CHANnel", b"CHANnel2", b"CHANnel21", b"TRIGger1", b"OUTPut3", b"X", b"ABCDEFGHIJ", b"TIMer25"]
+    n = 12 if tier == "quick" else 120
+    for _ in range(n):
+        defs = rng.sample(words, rng.randint(1, 4))
+        sub = [("L", d, False, i + 1) for i, d in enumerate(defs)]
+        sc = {i + 1: ([], ["di%d" % (i + 1)]) for i in range(len(defs))}
+        msgs = []
+        for d in defs:
+            for c in C20.spellings(rng, d):
+                if c[:1].isalpha() and c.replace(b"_", b"").isalnum() and len(c) <= 12: msgs.append(c + b"?")
+        msgs = rng.sample(msgs, min(len(msgs), 24))
+        exp = []
+        for m in msgs:
+            hits = [i + 1 for i, d in enumerate(defs) if C02.spec_match(d, m[:-1])]
+            exp.append(("OK", "%dq" % hits[0]) if hits else ("E-113", "-"))
+        out.append({"line": treegen.case_line("v", sub, sc, msgs), "expect": exp, "kind": "tree"})
+    for k, vs in enumerate(C20.FIXED):
+        for m, _ in vs:
+            for c in sorted(C20.spellings(rng, m)):
+                out.append({"line": "enum %d %s %s" % (k, C20.defspec(vs), hexs(c)), "kind": "enum"})
+    for kw in [b"NAN", b"INFinity", b"NINFinity", b"MAXimum", b"MINimum"]:
+        for c in sorted(C20.spellings(rng, kw)) + [kw.upper() + b"a", kw.upper() + b"_", kw + b"x", kw.upper()[:len(kw.rstrip(LO))] + b"a"]:
+            out.append({"line": "conv %s %s" % (rng.choice(["f32", "f64"]), hexs(c)), "kind": "conv"})
+    for kw in [b"MAXimum", b"MINimum", b"DEFault", b"UP", b"DOWN"]:
+        for c in sorted(C20.spellings(rng, kw)) + [kw.upper() + b"a", kw.upper() + b"_"]:
+            out.append({"line": "nv i32 %s -" % hexs(c), "kind": "nv"})
+    return out
+
+
 def generate(rng, tier):
     n = 300 if tier == "quick" else 5000
-    res = []
+    res = list(use_sites(rng, tier))
     for _ in range(n):
         d, parts = gen_def(rng)
         res.append("mm %s %s" % (hexs(d), ",".join(hexs(c) for c in gen_cands(rng, d, parts))))
     return res
 
 
-def harness_line(c): return c
-def case_of_line(l): return l
+def harness_line(c): return c if isinstance(c, str) else c["line"]
+
+
+def case_of_line(l):
+    k = l.split(" ")[0]
+    return l if k == "mm" else {"line": l, "kind": k, "expect": None}
+
+
+def impl_oracle(c, r):
+    if r is None: return "no result from harness"
+    if r.startswith(("PANIC", "CRASH", "NOT-RUN", "HANG")): return "implementation panicked / died"
+    if isinstance(c, dict) and c["kind"] == "tree" and c.get("expect"):
+        for m, (st, call) in zip(r.split(" | "), c["expect"]):
+            f = m.split(" ")
+            got = (f[0], f[4][4:] if len(f) > 4 else "-")
+            if got != (st, call): return "header mnemonic must %s by the short/long/default-1 rule: expected %s %s, got %s %s" % (
+                "match" if st == "OK" else "not match", st, call, got[0], got[1])
+    if isinstance(c, dict) and c["kind"] == "enum":
+        import C20
+        return C20.impl_oracle({"line": c["line"]}, r)
+    return None
 
 
 def coq_term(c):
+    if isinstance(c, dict):
+        import treegen, C20
+        if c["kind"] == "tree": return treegen.coq_term(c["line"])
+        if c["kind"] == "enum": return C20.coq_term({"line": c["line"]})
+        f = c["line"].split(" ")
+        if c["kind"] == "conv": return "run_conv (CFloat %s) %s" % ("F32" if f[1] == "f32" else "F64", coq_bytes(unhex(f[2])))
+        if c["kind"] == "nv": return "run_nv_int I32 %s []" % coq_bytes(unhex(f[2]))
     f = c.split(" ")
     cands = [unhex(x) for x in f[2].split(",") if x] if len(f) > 2 else []
     return f"run_mm {coq_bytes(unhex(f[1]))} {coq_list([coq_bytes(x) for x in cands])}"
@@ -95,10 +157,15 @@ def obs(s): return s
 
 
 def nontrivial(c, impl):
+    if isinstance(c, dict): return impl is not None and ("V" in impl or "q" in impl)
     return impl is not None and ("T" in impl.replace("F ", "").replace(" ", "")[::5] and "FF" in impl)
 
 
 def distribution(cases, impl):
-    pairs = sum(len(r.split(" ")) for r in impl if r)
-    matches = sum(1 for r in impl if r for x in r.split(" ") if x.startswith("T"))
-    return {"definitions": len(cases), "pairs": pairs, "matching_pairs": matches}
+    mm = [(c, r) for c, r in zip(cases, impl) if isinstance(c, str)]
+    pairs = sum(len(r.split(" ")) for _, r in mm if r)
+    matches = sum(1 for _, r in mm if r for x in r.split(" ") if x.startswith("T"))
+    uses = {}
+    for c in cases:
+        if isinstance(c, dict): uses[c["kind"]] = uses.get(c["kind"], 0) + 1
+    return {"definitions": len(mm), "pairs": pairs, "matching_pairs": matches, "use_site_cases": uses}
